@@ -56,6 +56,13 @@ namespace sim
       MOP_DISABLE,
       MOP_ENABLE,
       MOP_STATE,
+      // a PEGTL switching rule whose direct child carries a match()-bearing action of its own
+      MOP_CONTROL_CS,   // control< ctl2, mw_cs >     child: change_state
+      MOP_CONTROL_DA,   // control< ctl2, mw_da >     child: disable_action
+      MOP_ACTION_CAS,   // action< act2, mw_cas >     child under act2: enable_action
+      MOP_ACTION_CASS,  // action< act2, mw_cass >    child under act2: disable_action
+      MOP_DISABLE_CA,   // disable< mw_ca >           child: change_action< act2 >
+      MOP_STATE_CC,     // state< sim_state, mw_cc >  child: change_control< ctl2 >
       N_MOPS
    };
 
